@@ -643,6 +643,12 @@ func (r *resolver) fillInRecursiveDefs(root *Module) error {
 								fc.Debug.Printf("delayed: resubmitting %s.%s", entry.parent.Ident(), subdef.Ident())
 							}
 							subr := findResolved(unresolved, u)
+							if subr == entry.resolved {
+								// the grouping expands to itself in the very same parent: there is no
+								// container or list in between that could make the recursion lazy, so
+								// substituting would never end
+								return fmt.Errorf("%s - grouping uses itself without an intermediate container or list", SchemaPathNoModule(entry.uses))
+							}
 							r.unresolvedUses = append(r.unresolvedUses, &usesUnresolved{entry.parent, subr, u})
 						}
 						if err := entry.parent.addDataDefinitionWithoutOwning(subdef); err != nil {
